@@ -273,6 +273,88 @@ static inline void twoAssign(W& w, const std::vector<Item>& P, size_t ti, size_t
     w.outcome(mc::mix(7, mc::mix(ai, bi)));
 }
 
+// Operation histories on ONE target object (explicit-state exploration of the value operations): every sequence of `depth`
+// operations from {copy-assign s, move-assign s, std::swap with a fresh s, for every source s of the sub-pool; self copy
+// assignment; self move assignment; round trip through a copy-constructed temporary}. The model of the target is simply "the pool
+// member whose value it holds"; the target is observed after EVERY operation, sources of copy operations must stay unchanged,
+// and what std::swap leaves in the temporary must be the target's former value.
+static const size_t kHistKinds = 3;
+static inline size_t histOps(size_t nsrc) { return nsrc * kHistKinds + 3; }
+static inline void histCase(W& w, const std::vector<Item>& P, const std::vector<size_t>& sub, size_t ti, const std::vector<size_t>& ops)
+{
+    size_t cur = sub[ti];
+    A::Packet t = P[cur].make();
+    std::string hist = "target '" + P[cur].name + "'";
+    for (size_t step = 0; step < ops.size(); ++step)
+    {
+        size_t o = ops[step];
+        w.add(mc::C_TRANS, 1);
+        if (o < sub.size() * kHistKinds)
+        {
+            size_t si = sub[o / kHistKinds], kind = o % kHistKinds;
+            A::Packet src = P[si].make();
+            const std::string want = observe(src, P[si].hasPayload);
+            if (kind == 0)
+            {
+                t = src;
+                hist += "; = '" + P[si].name + "'";
+                if (observe(src, P[si].hasPayload) != want)
+                    w.fail("value:history:source-changed", hist + ": the copy assignment changed its source");
+            }
+            else if (kind == 1)
+            {
+                t = std::move(src);
+                hist += "; = move('" + P[si].name + "')";
+            }
+            else
+            {
+                const std::string former = observe(t, P[cur].hasPayload);
+                std::swap(t, src);
+                hist += "; swap with '" + P[si].name + "'";
+                std::string got = observe(src, P[cur].hasPayload);
+                if (got != former)
+                    w.fail("value:history:swap-loses-former-value", hist + ": the other object is {" + got + "}, the target was {" + former + "}");
+            }
+            cur = si;
+        }
+        else
+        {
+            size_t k = o - sub.size() * kHistKinds;
+            if (k == 0)
+            {
+                A::Packet& r = t;
+                t = r;
+                hist += "; self copy assignment";
+            }
+            else if (k == 1)
+            {
+                A::Packet& r = t;
+                t = std::move(r);
+                hist += "; self move assignment";
+            }
+            else
+            {
+                A::Packet tmp(t);
+                t = std::move(tmp);
+                hist += "; through a copy-constructed temporary";
+            }
+        }
+        std::string want = observe(P[cur].make(), P[cur].hasPayload), got = observe(t, P[cur].hasPayload);
+        if (got != want)
+        {
+            w.fail("value:history:target-differs-from-its-value", hist + ": target is {" + got + "}, a fresh '" + P[cur].name + "' is {" + want + "}");
+            return;
+        }
+        A::Packet fresh = P[cur].make();
+        if (!(t == fresh) || (t != fresh))
+        {
+            w.fail("value:history:target-compares-unequal-to-its-value", hist + ": operator== says the target differs from a fresh '" + P[cur].name + "'");
+            return;
+        }
+    }
+    w.outcome(mc::mix(11, mc::mix(cur, ops.size() ? ops.back() : 0)));
+}
+
 static inline void eqCase(W& w, const std::vector<Item>& P, size_t ai, size_t bi)
 {
     A::Packet a = P[ai].make(), b = P[bi].make();
@@ -483,6 +565,13 @@ static int runC14(mc::Run& run, const mc::Options& opt)
         if (kv["k"] == "op") opCase(w, P, kv["op"], n("s"), n("t"));
         else if (kv["k"] == "two") twoAssign(w, P, n("t"), n("a"), n("b"));
         else if (kv["k"] == "eq") eqCase(w, P, n("a"), n("b"));
+        else if (kv["k"] == "hist")
+        {
+            std::vector<size_t> sub, ops;
+            for (auto& x : mc::split(kv["sub"], ',')) sub.push_back((size_t) atoi(x.c_str()));
+            for (auto& x : mc::split(kv["ops"], ',')) ops.push_back((size_t) atoi(x.c_str()));
+            histCase(w, P, sub, n("t"), ops);
+        }
         else if (kv["k"] == "xcls") crossClassCases(w, cs);
         else if (kv["k"] == "pl")
         {
@@ -532,6 +621,60 @@ static int runC14(mc::Run& run, const mc::Options& opt)
             w.add(mc::C_STATES, 2);
         }
     });
+    {
+        // sharp sub-pool: one member per way a packet can hold its payload (none, zero-length, generic, concrete class via setPayload,
+        // decoder-produced, decoder-produced and edited in place) + two that differ in one header field only
+        std::vector<size_t> sharp;
+        for (size_t i = 0; i < P.size(); ++i)
+            for (const char* nm : {"default(no payload)", "zero-length CAN payload", "zero-length LIN payload", "CAN 8 bytes", "CAN 8 bytes, last data byte differs", "Ethernet 1500 bytes",
+                                   "capture-module status", "decoder-produced LIN packet", "decoder-produced CAN packet, crc error flag set in place", "all header fields distinctive",
+                                   "... payload one byte longer", "one-byte payload"})
+                if (P[i].name == nm)
+                    sharp.push_back(i);
+        std::vector<size_t> all;
+        for (size_t i = 0; i < P.size(); ++i)
+            all.push_back(i);
+        const bool thorough = opt.tier == "thorough";
+        struct Plan { const std::vector<size_t>* sub; size_t depth; const char* what; };
+        std::vector<Plan> plans = {{&sharp, thorough ? (size_t) 4 : (size_t) 3, "sharp sub-pool"}, {&all, thorough ? (size_t) 3 : (size_t) 2, "whole pool"}};
+        for (auto& pl : plans)
+        {
+            const std::vector<size_t>& sub = *pl.sub;
+            const size_t nops = histOps(sub.size()), depth = pl.depth;
+            std::string subs;
+            for (size_t i : sub)
+                subs += (subs.empty() ? "" : ",") + std::to_string(i);
+            uint64_t inner = 1;
+            for (size_t d = 1; d < depth; ++d)
+                inner *= nops;
+            run.round(ofmt("every history of %zu value operations (copy-assign / move-assign / swap from every member, self assignments, temporary round trip) on every target of the %s (%zu members)", depth, pl.what, sub.size()),
+                      sub.size() * nops, [&, depth, nops, inner, subs](W& w, uint64_t o) {
+                          size_t ti = o / nops, first = o % nops;
+                          std::vector<size_t> ops(depth);
+                          for (uint64_t r = 0; r < inner; ++r)
+                          {
+                              ops[0] = first;
+                              uint64_t x = r;
+                              for (size_t d = 1; d < depth; ++d)
+                              {
+                                  ops[d] = x % nops;
+                                  x /= nops;
+                              }
+                              auto desc = [&] {
+                                  std::string os;
+                                  for (size_t q : ops)
+                                      os += (os.empty() ? "" : ",") + std::to_string(q);
+                                  return ofmt("k=hist;sub=%s;t=%zu;ops=%s", subs.c_str(), ti, os.c_str());
+                              };
+                              if (!w.begin_case(desc))
+                                  continue;
+                              histCase(w, P, sub, ti, ops);
+                              w.add(mc::C_TRACES, 1);
+                              w.add(mc::C_STATES, depth);
+                          }
+                      });
+        }
+    }
     run.round("equality on every ordered pair", P.size(), [&](W& w, uint64_t ai) {
         for (size_t bi = 0; bi < P.size(); ++bi)
         {
